@@ -73,6 +73,8 @@ def _parse_world(fields, res):
                     l, c0, c1 = map(int, sp.split(':'))
                     evs.append((kind, int(d), (l, c0, c1)) + ((failed,) if kind == 'A' else ()))
             res['events'] = evs
+        elif f.startswith('height='):
+            res['height'] = int(f[7:])
         elif f.startswith('starts='):
             res['starts'] = int(f[7:])
         elif f.startswith('cells='):
@@ -113,6 +115,24 @@ def run_main(program: str, stdin: str = '', fs=None, format_io: bool = True, fue
              events: bool = False):
     line = f"main {1 if format_io else 0} {fuel} {hx(stdin)} {fs_spec(fs)} {hx(program)}" + (" events" if events else "")
     return _parse_outcome(driver().ask(line))
+
+
+def run_main_big(program: str, stdin: str = '', fs=None, format_io: bool = True, fuel: int = 20000):
+    """the same front end through the executable big-step evaluator `evalF` (driver command main2); `fuel` bounds the
+    depth of the derivation, not the number of steps"""
+    global _DRV
+    line = f"main2 {1 if format_io else 0} {fuel} {hx(stdin)} {fs_spec(fs)} {hx(program)}"
+    try:
+        return _parse_outcome(driver().ask(line))
+    except RuntimeError as e:
+        if 'died' not in str(e):
+            raise
+        # evalF is not tail recursive: a very deep derivation can exhaust the driver's native stack; that is a limit of
+        # this executable form, not an outcome — restart the driver and report 'fuel'
+        try: _DRV.p.kill()
+        except Exception: pass
+        _DRV = None
+        return {'kind': 'fuel', 'why': 'native stack of the big-step evaluator'}
 
 
 def run_cli(program: str, argv, stdin: str = '', fs=None, fuel: int = DEFAULT_FUEL):
